@@ -15,7 +15,9 @@ Tags(ev) ==
     ELSE LET a == Cases[ev.case].abs
              avail == Range(a.avail)
              req == [j \in DOMAIN ev.req |-> NameOf(ev.req[j])] IN
-         IF ev.api = "find_locale"
+         \* "find_locale (entries as split from a header)": the same list with a space in front of every entry but the first,
+         \* as the entries of `Accept-Language: a, b, c` arrive; it means the same request
+         IF ev.api \in {"find_locale", "find_locale (entries as split from a header)"}
          THEN IF ev.chosen = "PANIC" THEN {"panic"}
               ELSE IF Honours(req, avail, a.default, NameOf(ev.chosen)) THEN {} ELSE {"preference-not-honoured"}
          ELSE IF ev.matches = <<"PANIC">> THEN {"panic"}
